@@ -305,8 +305,9 @@ class AbstractPWA(Alignment, Transform, Invertible):
                     points_outside_source_domain.append(e.points_outside_source_domain)
                 else:
                     # No exception was thrown, so all points were inside
+                    # the last batch may hold fewer than batch_size points
                     points_outside_source_domain.append(
-                        np.zeros(batch_size, dtype=bool)
+                        np.zeros(x[lo_ind:hi_ind].shape[0], dtype=bool)
                     )
 
             if exception_thrown:
